@@ -45,6 +45,9 @@ enum Ev {
     Uns { data: bool, con: bool, dup: bool, foreign: bool },
     /// unsolicited response (CON) whose object header is truncated
     UnsMalformed,
+    /// same sequence number, flags and IIN as the previous unsolicited fragment, new contents:
+    /// not a repetition, so it is delivered (and confirmed) like any other accepted fragment
+    UnsSameSeq,
     Silence,
 }
 
@@ -68,6 +71,7 @@ fn alphabet() -> Vec<Ev> {
         Ev::Uns { data: true, con: true, dup: false, foreign: true },
         Ev::Uns { data: true, con: false, dup: false, foreign: false },
         Ev::UnsMalformed,
+        Ev::UnsSameSeq,
         s(true, true, false, 0, false, Body::Truncated, 0),
         s(true, true, true, 0, false, Body::UnknownObject, 0),
         s(true, true, true, 0, false, Body::Ideal, app::iin2::NO_FUNC_CODE_SUPPORT),
@@ -237,6 +241,19 @@ impl Scenario for C15 {
                     useq = (useq + 1) & 0x0F;
                     let frag = app::response(app::ctrl(true, true, true, true, useq), fc::UNSOLICITED_RESPONSE, 0, 0, &[30, 1, 0x00, 0, 0, 0x01, 0x02]);
                     // not accepted: neither delivered nor confirmed
+                    sim.respond(&frag);
+                    sent = Some(frag);
+                }
+                Ev::UnsSameSeq => {
+                    let frag = app::response(app::ctrl(true, true, true, true, useq), fc::UNSOLICITED_RESPONSE, 0, 0, &measurement_objects(n_value));
+                    let is_dup = last_unsol.as_deref() == Some(&frag[..]);
+                    if integrity_done {
+                        if !is_dup {
+                            exp.deliveries = 1;
+                        }
+                        exp.confirms.push((true, useq));
+                        last_unsol = Some(frag.clone());
+                    }
                     sim.respond(&frag);
                     sent = Some(frag);
                 }
@@ -500,6 +517,7 @@ fn short(ev: &Ev) -> String {
     match ev {
         Ev::Silence => "silence".into(),
         Ev::UnsMalformed => "uns-malformed".into(),
+        Ev::UnsSameSeq => "uns-same-seq-new-contents".into(),
         Ev::Uns { data, con, dup, foreign } => format!("uns-data{}-con{}-dup{}-foreign{}", *data as u8, *con as u8, *dup as u8, *foreign as u8),
         Ev::Sol { fir, fin, con, uns, dseq, foreign, body, iin2 } => format!(
             "sol-fir{}fin{}con{}uns{}-dseq{}-foreign{}-{:?}-iin{}",
